@@ -85,6 +85,9 @@ def make_functions(beh, ids, sched=None, state=None):
         if b == 'late':
             sched.block_until(lambda: state['gave_up'](k), None, 'late')
         pb = FakePlayback(recording_id, k, b)
+        if b == 'idleExit' and state is not None:
+            # the worker answers this recording and then dies while idle: at its next look at the task queue
+            state['idle_exit'] = sched.me().name
         if b == 'unreadable':
             pb.extra = Unrebuildable(k, 'x')
         return pb
@@ -247,6 +250,16 @@ def run_dedicated(beh, rate, stop, late_wins, keep_results, abandon='close', max
 
     sched = Scheduler(chooser, urgency=True, max_steps=max_steps)
     mpf, kill = make_mp(sched)
+    plain_get = mpf.Queue.get
+
+    def get_or_die(self, block=True, timeout=None):
+        me = sched.me()
+        if me is not None and me.name == state.get('idle_exit'):
+            state['idle_exit'] = None
+            me.kill_requested = False
+            raise Killed()          # the worker process is gone, between two tasks
+        return plain_get(self, block, timeout)
+    mpf.Queue.get = get_or_die
     time_fn, _sleep = make_time(sched)
 
     def gave_up(k):
